@@ -270,13 +270,23 @@ func buildNegCases() []negCase {
 				negObj("Foo", &j5sgen.Prop{Name: "d", Field: &j5sgen.Field{Kind: j5sgen.FObject, Ref: &j5sgen.TRef{Kind: j5sgen.RRef, Pkg: "dep", Schema: "Dep"}}}))}},
 		}}, "foo.v1"},
 	}
-	// a status written with the entity's status prefix: the enum keeps the name as written, findStatus
-	// prefixes it once more, so the default filter names no value of the status enum
-	out = append(out, one("entity-default-filter-prefixed-status", &j5sgen.Elem{Kind: j5sgen.KEntity, Entity: &j5sgen.Entity{Name: "Foo",
-		Keys:     []*j5sgen.EKey{{Prop: &j5sgen.Prop{Name: "fooId", Field: &j5sgen.Field{Kind: j5sgen.FKey, Fmt: "id62", EntKey: &j5sgen.EntKey{Kind: "primary", Primary: true}}}}},
-		Statuses: []string{"FOO_STATUS_ACTIVE", "DONE"},
-		Events:   []*j5sgen.Object{{Name: "Create"}},
-		Query:    &j5sgen.Query{Filters: []string{"FOO_STATUS_ACTIVE"}}}}))
+	// list methods (request takes j5.list.v1.QueryRequest) whose response is not list shaped
+	listSvc := func(res []*j5sgen.Prop, hasRes bool) *j5sgen.Elem {
+		return &j5sgen.Elem{Kind: j5sgen.KService, Service: &j5sgen.Service{Name: "Foo", Methods: []*j5sgen.Method{{
+			Name: "ListFoos", Verb: "get", Path: "/foos",
+			Req:    []*j5sgen.Prop{{Name: "query", Field: &j5sgen.Field{Kind: j5sgen.FObject, Ref: &j5sgen.TRef{Kind: j5sgen.RRef, Pkg: "j5.list.v1", Schema: "QueryRequest"}}}},
+			HasRes: hasRes, Res: res}}}}
+	}
+	row := func() *j5sgen.Field {
+		return &j5sgen.Field{Kind: j5sgen.FObject, Ref: &j5sgen.TRef{Kind: j5sgen.RInlObj, Props: []*j5sgen.Prop{{Name: "x", Field: &j5sgen.Field{Kind: j5sgen.FString}}}}}
+	}
+	arrOf := func(f *j5sgen.Field) *j5sgen.Field { return &j5sgen.Field{Kind: j5sgen.FArray, Items: f} }
+	out = append(out,
+		one("list-no-response", listSvc(nil, false)),
+		one("list-no-array", listSvc([]*j5sgen.Prop{{Name: "x", Field: &j5sgen.Field{Kind: j5sgen.FString}}}, true)),
+		one("list-two-arrays", listSvc([]*j5sgen.Prop{{Name: "rows", Field: arrOf(row())}, {Name: "more", Field: arrOf(&j5sgen.Field{Kind: j5sgen.FString})}}, true)),
+		one("list-array-of-scalars", listSvc([]*j5sgen.Prop{{Name: "rows", Field: arrOf(&j5sgen.Field{Kind: j5sgen.FString})}}, true)),
+	)
 	return out
 }
 
@@ -488,7 +498,13 @@ func genTotalRandom(h *vh.H) string {
 	case 6, 7:
 		// a hand-written semantic case, token-mutated once more (errors near errors)
 		sc := vh.Pick(h, semCases)
-		return srcOp("semmut", "foo/v1/a.j5s", mutateTokens(h, sc.text), &j5sgen.Bundle{})
+		// only the text of the main file is mutated: the `\x00FILE <name>\x00` trailer that carries further
+		// files of the case is harness syntax (a mutated file NAME is not a j5s source)
+		text, trailer := sc.text, ""
+		if i := strings.Index(text, "\x00FILE "); i >= 0 {
+			text, trailer = text[:i], text[i:]
+		}
+		return srcOp("semmut", "foo/v1/a.j5s", mutateTokens(h, text)+trailer, &j5sgen.Bundle{})
 	default:
 		if h.Chance(1, 2) {
 			// several packages: imports by name / alias / segment, same short type name in two packages
